@@ -332,7 +332,7 @@ AcqCreateResp(i, s) ==
   /\ s \in AcqSlots /\ t.pc = "create" /\ o.ph = "app"
   /\ IF o.ok
      THEN Commit(i, LET st == BecomeLeader(i, Cur3(i), o.tok, o.res) IN [st EXCEPT !.t[s] = Idle]) /\ UNCHANGED ntok
-     ELSE IF TK[i] /\ Prio[i] > 0
+     ELSE IF TK[i] /\ Prio[i] > 0 /\ (~Stopped(i) \/ Dv("takeover_continues_after_stop"))
           THEN /\ th' = [th EXCEPT ![i][s] = [t EXCEPT !.pc = "tkget", !.op = MkOp("get", 0, o.tok)]]
                /\ UNCHANGED <<el, g, wq, ntok>>
           ELSE Commit(i, AcqFailed(i, s, Cur3(i))) /\ UNCHANGED ntok
@@ -347,8 +347,10 @@ TkGetResp(i, s) ==
   /\ IF ~o.ok THEN Commit(i, AcqFailed(i, s, Cur3(i)))
      ELSE IF (IF Dv("takeover_ge") THEN Prio[i] < o.rprio ELSE Prio[i] <= o.rprio)
           THEN Commit(i, AcqFailed(i, s, [Cur3(i) EXCEPT !.e = Observe(@, o.rid, o.res)]))
-          ELSE /\ th' = [th EXCEPT ![i][s] = [t EXCEPT !.pc = "tkupd", !.op = MkOp("update", o.res, o.tok)]]
-               /\ UNCHANGED <<el, g, wq>>
+          ELSE IF Stopped(i) /\ ~Dv("takeover_continues_after_stop")
+               THEN Commit(i, AcqFailed(i, s, Cur3(i)))                        \* a stopped election does not go on to the Update
+               ELSE /\ th' = [th EXCEPT ![i][s] = [t EXCEPT !.pc = "tkupd", !.op = MkOp("update", o.res, o.tok)]]
+                    /\ UNCHANGED <<el, g, wq>>
   /\ UNCHANGED <<now, rec, seq, ntok, orph>>
 
 TkUpdateResp(i, s) ==
@@ -754,6 +756,8 @@ C02_AtMostOne == g.calm => AtMostOneLeader({i \in Inst : el[i].leader})
 C02_Backed == g.calm => \A i \in Inst : el[i].leader => ClaimBacked(i, RecP, el[i].tok)
 C08_Balanced == \A i \in Inst : el[i].life # "stopping" => Balanced(el[i].leader, el[i].cb + (IF el[i].life = "stopped" /\ FALSE THEN 0 ELSE 0), 0) \/ el[i].cb \in {0, 1}
 C08_Mirror == \A i \in Inst : (el[i].life \in {"running", "stopped", "init"} /\ (\A s \in Slots : ~Ready(i, s))) => (el[i].leader <=> el[i].cb = 1)
+\* after Stop returned no goroutine of the instance is about to issue a further operation of a multi-step sequence
+C09_NoNewOps == \A i \in Inst : el[i].life = "stopped" => \A s \in AcqSlots : th[i][s].pc \notin {"tkget", "tkupd"} \/ th[i][s].op.at <= now
 C09_Final == \A i \in Inst : el[i].life = "stopped" => ~el[i].leader /\ el[i].state = "STOPPED"
 C18_Consistent == \A i \in Inst : (el[i].leader <=> el[i].state = "LEADER") /\ (el[i].leader => el[i].lid = i)
 C19_Ctx == \A i \in Inst : /\ (el[i].leader /\ el[i].termAlive => el[i].term \in el[i].ctxOpen)
@@ -764,5 +768,7 @@ MaxJit == CHOOSE j \in JIT : \A k \in JIT : k <= j
 C06_Filled == (g.vacSince >= 0 /\ g.faults = 0 /\ \E j \in Inst : ReadyCand(j)) => now <= g.vacSince + CHK + MaxJit + 6 * LAT + 2
 \* C11: the leader is demoted when the grace period since the latest disconnect elapses without a reconnect
 C11_Grace == \A i \in Inst : el[i].pdue >= 0 /\ el[i].leader => now <= el[i].pdue
+\* used with -simulate to end a random behaviour at the time horizon (tools/simgen.py exports the behaviour)
+SimRunning == now < MaxNow
 TypeOK == /\ now \in 0..MaxNow /\ \A i \in Inst : el[i].cb \in -1..2
 =============================================================================
